@@ -281,7 +281,9 @@ def run(chk, replay=None):
         row["id"] = i + 1
         row["keyed"] = x_block(row["tree"], [])
     if replay:
-        rows = [r for r in rows if r["tree"] == want["tree"] and r["lang"] == want["lang"] and r["fam"] == want["fam"]] or [want]
+        rows = [r for r in rows if r["tree"] == want["tree"] and r["lang"] == want["lang"] and r["fam"] == want["fam"]]
+        if not rows:       # a tree outside this tier's bounds: take the recorded expectations
+            rows = [dict(want, id=1, keyed=x_block(want["tree"], []))]
     chk.set("families", fam_counts)
     # ---- harness input
     inputs = []
